@@ -277,7 +277,9 @@ func firstLen(desc sim.ModelDescription, req *request) (T int, supplied int, une
 
 // non-finite recipes: requests whose direct run yields NaN / +Inf / -Inf
 func nonFiniteRequest(k int) *request {
-	switch k % 3 {
+	switch k % 4 {
+	case 3: // the largest finite values: still numbers
+		return &request{Name: "Sum", Inputs: []reqInput{{"i1", []float64{math.MaxFloat64, -math.MaxFloat64, 5e-324}}, {"i2", []float64{0, 0, 0}}}}
 	case 0: // 0/0
 		return &request{Name: "DepthToRate", Parameters: []reqValue{{"DeltaT", 0}, {"area", 0}}, Inputs: []reqInput{{"input", []float64{0, 1, 0}}}}
 	case 1: // overflow to +Inf
@@ -298,7 +300,7 @@ func drawRequest(w *simrt.Tape) (*request, string) {
 	case 18:
 		return &request{Parameters: []reqValue{{"x", 1}}}, "no-name"
 	case 19:
-		return nonFiniteRequest(w.Choose(3)), "non-finite"
+		return nonFiniteRequest(w.Choose(4)), "non-finite"
 	case 16:
 		if w.Bool(50) {
 			// a size-like parameter with a negative value: the run cannot even be set up (the state
